@@ -33,6 +33,9 @@ def check(run):
         if o.rule == 'C03-CLASS':
             o.rule = 'C13-CLASS'
     run.floors = [(('C13-CLASS' if r == 'C03-CLASS' else r), c, m) for r, c, m in run.floors]
+    from .c03 import discard
+    discard(run, p, 'C13-STRIPCOUNT')
+    run.rules['C13-STRIPCOUNT'] += ' (the stripped-examples counter decides whether the expressions get their \\s* wrappers: a blank example counted wrongly leaves an expression that matches none of the examples as given)'
     from .common import observed_rule
     n = observed_rule(run, 'C13-OBSERVED', p, [f for f in p.funcs.values() if f.mod.name == 'tdda.rexpy.rexpy' and f.cls is None],
                       'every example handed to the extractor is a value that is present: an expression learnt from a categorical '
